@@ -48,10 +48,15 @@ func makeDeadline(d time.Duration) fasttime {
 	// Increase the deadline since the clock we are reading may be
 	// just about to tick forwards.
 	ticks := durationToTicks(addDuration(d, clockPeriod))
+
+	// clockEnd is read before current: a clockEnd that covers the deadline
+	// below was published after current was last refreshed, so a deadline
+	// that passes the test is never computed from a stopped clock's value.
+	clockEnd := fast.clockEnd.read()
 	end := fast.current.read() + ticks
 
 	// Start or extend clock if necessary.
-	if end > fast.clockEnd.read() {
+	if end > clockEnd {
 		// If time.Since(last use) > timeout, there's a chance that
 		// fast.current will no longer be updated, which can lead to
 		// incorrect 'end' calculations that can trigger a false timeout
@@ -59,9 +64,11 @@ func makeDeadline(d time.Duration) fasttime {
 		if !fast.running && !fast.start.IsZero() {
 			// update fast.current
 			fast.current.write(durationToTicks(time.Since(fast.start)))
-			// recalculate our end value
-			end = fast.current.read() + ticks
 		}
+		// recalculate our end value: current is live now, either refreshed
+		// above or kept up to date by a clock that another caller (re)started
+		// since our first read
+		end = fast.current.read() + ticks
 		fast.mu.Unlock()
 		extendClock(end)
 	}
